@@ -30,6 +30,7 @@ def structure(P, es, nseg, rad):
 def cases(tier, seed):
     yield from extras(tier, seed)
     yield from fixed_cases()
+    yield from sym_cases(tier, seed)
     if tier == 'thorough':
         yield from cases7(tier, seed)
     D = 3 if tier == 'quick' else 4
@@ -49,6 +50,61 @@ def cases(tier, seed):
                     nseg = [geom.auto_nseg(np.linalg.norm(P[a] - P[b]), nseg * lam) for a, b in es]
                 st = [dict(a=a, b=b, n=nseg[i], r=rad[i] * lam) for i, (a, b) in enumerate(es)]
                 yield dict(env='ideal' if ground else 'free', f=f, lam=lam, pts=pts, st=st)
+
+
+def sym_cases(tier, seed):
+    """mirror-symmetric antennas (plane x = 0) with a symmetric feed, in every order and orientation: the conductor
+    currents are mirror images of each other (odd for a feed across the plane, even for two equal feeds)"""
+    rot, sc, f = geom.variant(seed)
+    lam = geom.C_MININEC / f
+    r = 2e-4 * lam
+    M = np.array([-1., 1., 1.])
+    h = 0.3 * lam
+    O = np.array([0., 0., h])
+    A = np.array([0.2, 0.05, 0.4]) * lam
+    B1, B2 = np.array([0.1, 0., 0.3]) * lam, np.array([0.18, 0.1, 0.4]) * lam
+    G, T = np.array([0.1, 0., 0.]) * lam, np.array([0., 0.05, 0.2]) * lam
+    fams = [('V-free', 'free', [(O, A, 5), (O, A * M, 5)], [dict(at=list(O), dir=[1., 0., 0.], v=[1.0, 0.0])], -1),
+            ('V-ideal', 'ideal', [(O, A, 5), (O, A * M, 5)], [dict(at=list(O), dir=[1., 0., 0.], v=[1.0, 0.0])], -1),
+            ('U-free', 'free', [(B1 * M, B1, 4), (B1, B2, 3), (B1 * M, B2 * M, 3)], [dict(at=list(O), dir=[1., 0., 0.], v=[1.0, 0.0])], -1),
+            ('A-ideal', 'ideal', [(G, T, 5), (G * M, T, 5)], [dict(at=list(G), dir=list(T - G), v=[0.6, -0.8]), dict(at=list(G * M), dir=list(T - G * M), v=[0.6, -0.8])], +1)]
+    for name, env, ws, srcs, parity in fams:
+        k = len(ws)
+        for order in itertools.permutations(range(k)):
+            for flips in itertools.product((0, 1), repeat=k):
+                wires = [geom.wire(ws[i][1], ws[i][0], ws[i][2], r) if flips[i] else geom.wire(ws[i][0], ws[i][1], ws[i][2], r) for i in order]
+                yield dict(sym=name, env=env, f=f, lam=lam, wires=wires, srcs=srcs, parity=parity,
+                           desc='%s%s' % (''.join(map(str, order)), ''.join(map(str, flips))))
+
+
+def eval_sym(c):
+    case = dict(f=c['f'], env=c['env'], wires=c['wires'])
+    m = geom.build(case)
+    pm = geom.pulse_by_point(m)
+    # a feed across the mirror plane sits on a junction pulse (V) or an interior pulse (U): addressed by its point and its two far ends
+    srcs = []
+    for s_ in c['srcs']:
+        cands = geom.pulses_at(pm, s_['at'])
+        if len(cands) != 1:
+            return dict(viol=[('HARNESS', '%d pulses at the feed point' % len(cands))])
+        srcs.append(dict(pulse=cands[0].idx, v=(np.array(s_['v']) * np.sign(np.dot(geom.orient(cands[0]), np.array(s_['dir'])))).tolist()))
+    geom.add_sources(m, srcs)
+    m.compute()
+    tol, cond = geom.cond_tol(m)
+    if tol is None:
+        return dict(viol=[], skipped='cond>1e5', evals=1)
+    h = geom.half_currents(m)
+    Mx = np.diag([-1., 1., 1.])
+    hm = h.transformed(Mx)
+    hm = geom.HC(hm.P, hm.U, c['parity'] * hm.I, hm.tol)
+    d = geom.cmp_half_currents(hm, h)
+    viol = []
+    if d is None:
+        viol.append(('SYM-KEYS', '%s %s: the half-segment table is not mirror symmetric' % (c['sym'], c['desc'])))
+        d = 0.0
+    elif not (d <= tol):
+        viol.append(('SYM-CURRENTS', '%s description %s: conductor currents deviate %.3g from their mirror image (limit %.3g, cond %.0f)' % (c['sym'], c['desc'], d, tol, cond)))
+    return dict(viol=viol, canon='sym|%s|%s' % (c['sym'], c['desc']), nontriv=True, trans=1, traces=1, evals=1, dev=d, outcome='sym')
 
 
 def cases7(tier, seed):
@@ -351,6 +407,8 @@ def descriptions(c):
 def evaluate(c):
     if 'extra' in c:
         return eval_extra(c)
+    if 'sym' in c:
+        return eval_sym(c)
     ground = c['env'] != 'free'
     rep = rep_case(c)
     reason = geom.domain(rep, c['lam'], ground=ground)
